@@ -9,9 +9,19 @@
    That the real formatter changes nothing else (only skippable tokens, message-literal
    separators / colons and the spelling of angle brackets) is the correspondence the check
    evaluates on every formatted output; that the result compiles to the same descriptors and
-   that a second pass changes nothing is decided by the direct oracle only. *)
+   that a second pass changes nothing is decided by the direct oracle only.
+
+   One part of the second pass IS proved: the text of a block comment.  On the model of
+   printer.emitBlockComment and of dom's rendering of what it pushes (Model/BlockComment.v: common
+   indentation with tabs at 8-column stops, unindent, right trimming, the prefix / plain
+   normalisation of the Legacy preset, pending line feeds) the lines of a comment printed at an
+   indentation of k spaces are printed unchanged when they are printed again at the same depth:
+   without premise for the verbatim mode of the Default preset, and for the normalising mode of
+   the Legacy preset for every comment whose last line is not blank and whose other lines do not
+   begin with the closer (every block comment token: it ends with its only closer).  The check
+   compares the model with the formatter on block comments of arbitrary shape. *)
 From Coq Require Import List NArith Bool Permutation.
-From PV Require Import Model.Trivia Proofs.Trivia.
+From PV Require Import Model.Trivia Proofs.Trivia Model.BlockComment Proofs.BlockComment.
 Import ListNotations.
 Open Scope N_scope.
 
@@ -51,3 +61,27 @@ Example C31_nonvacuous :
      mkFdecl 4 false [] false [[109]; [66]]]
   = [[115]; [105]; [97]; [105]; [98]; [109]; [65]; [109]; [66]].
 Proof. vm_compute. reflexivity. Qed.
+
+(* ---- the text of a block comment is a fixed point of the second pass *)
+Theorem C31_block_comment_verbatim_idempotent : forall k ls,
+  emit_verbatim k (emit_verbatim k ls) = emit_verbatim k ls.
+Proof. exact emit_verbatim_idempotent_lemma. Qed.
+Print Assumptions C31_block_comment_verbatim_idempotent.
+
+Theorem C31_block_comment_normalised_idempotent : forall k ls,
+  blank (last ls []) = false ->
+  Forall (fun l => starts_close (trim_left l) = false) (removelast ls) ->
+  emit_norm k (emit_norm k ls) = emit_norm k ls.
+Proof. intros k ls H1 H2. apply emit_norm_idempotent_lemma. split; assumption. Qed.
+Print Assumptions C31_block_comment_normalised_idempotent.
+
+(* non-vacuity: slash star / 4 spaces a / 2 spaces, tab (blank) / 6 spaces b / 3 spaces star slash,
+   inside a body (k = 2).  Verbatim: the common indentation 3 (the closing line) goes, the blank
+   line disappears; normalised: no common prefix character, three spaces, the blank line stays. *)
+Example C31_block_comment_nonvacuous :
+  let c := [[47; 42]; [32; 32; 32; 32; 97]; [32; 32; 9]; [32; 32; 32; 32; 32; 32; 98]; [32; 32; 32; 42; 47]] in
+  emit_verbatim 2 c = [[47; 42]; [32; 32; 32; 97]; [32; 32; 32; 32; 32; 98]; [32; 32; 42; 47]]
+  /\ emit_norm 2 c = [[47; 42]; [32; 32; 32; 32; 32; 32; 97]; []; [32; 32; 32; 32; 32; 32; 32; 32; 98]; [32; 32; 42; 47]]
+  /\ blank (last c []) = false
+  /\ Forall (fun l => starts_close (trim_left l) = false) (removelast c).
+Proof. vm_compute. repeat split; repeat constructor. Qed.
